@@ -25,6 +25,30 @@ def nosite(t):
     return tuple(nosite(x) if isinstance(x, (tuple, frozenset)) else x for x in t)
 
 
+def stats_scope(F):
+    """keys of the code that computes and serves the fit statistics: FitStatistics' methods, the free functions of its
+    module reached from them, and the solver entry that builds them"""
+    seeds = [b.key for b in F.bodies.values() if b.kind != "Closure" and
+             (b.j.get("impl", {}).get("self_adt") == ADT_STATS or (b.j.get("impl", {}).get("self_adt") == ADT_SOLVER and ADT_STATS in (b.j.get("output", "") or "")))]
+    seen, work = set(), list(seeds)
+    while work:
+        k = work.pop()
+        if k in seen or k not in F.bodies:
+            continue
+        seen.add(k)
+        b = F.bodies[k]
+        for bi, t in b.calls():
+            if "fn" in t:
+                key = t["fn"].get("resolved_key") or t["fn"].get("key")
+                cb = F.bodies.get(key)
+                # follow into private / crate-private helpers, not into the public API of other types (the problem, the model)
+                if cb is not None and (cb.j.get("impl", {}).get("self_adt") in (None, ADT_STATS) and "trait" not in cb.j.get("impl", {})):
+                    work.append(key)
+        for c in F.closures_of(k):
+            work.append(c.key)
+    return seen
+
+
 def cone(F):
     """bodies reachable from the API entry points of C08 in the local call graph"""
     entries = []
@@ -138,8 +162,11 @@ def site_kind(t):
     return None
 
 
-def rule_panic_sites(F, ev, R, config, rule="R-PANIC-SITES"):
+def rule_panic_sites(F, ev, R, config, rule="R-PANIC-SITES", scope=None):
     cn, edges = cone(F)
+    if scope == "statistics":
+        sc = stats_scope(F)
+        cn = set(k for k in cn if k in sc)
     counts = {}
     dis = None
     inventory = {"explicit": 0, "sub": 0, "bounds": 0, "addmul": 0, "index": 0}
@@ -267,7 +294,7 @@ def rule_panic_sites(F, ev, R, config, rule="R-PANIC-SITES"):
                       "panic-capable site `%s` on the no-panic cone is neither dominated by a guard establishing its condition nor in the reviewed table%s"
                       % (what[:100], " (more sites of this kind than reviewed)" if hit else ""), t.get("span"))
     R.notes.append(inventory)
-    R.floor(rule, config, 50, "pinned tree: 23 explicit + 2 Sub + 56 bounds checks + index calls = 85; the floor is a vacuity guard, not a census")
+    R.floor(rule, config, 50 if scope is None else 8, "pinned tree: 23 explicit + 2 Sub + 56 bounds checks + index calls = 85 (whole cone); the floor is a vacuity guard, not a census")
     return inventory
 
 
